@@ -194,6 +194,12 @@ func (r *SimReader) Read(p []byte) (int, error) {
 
 func (r *SimReader) scribble(p []byte) {
 	r.Scribbles++
+	// the whole unused part for the first calls, then the 512 bytes next to the
+	// data: overwriting a 32 KB buffer on each of a million one-byte reads
+	// makes the simulated reader, not the library, the slow party
+	if r.Scribbles > 64 && len(p) > 512 {
+		p = p[:512]
+	}
 	for i := range p {
 		p[i] = 0xA5
 	}
@@ -203,6 +209,12 @@ func (r *SimReader) scribble(p []byte) {
 // All-zero draws give "whole, as asked", i.e. the in-memory-like delivery.
 func DrawReaderPlan(t *tape.Tape, n int) ReaderPlan {
 	p := ReaderPlan{Cut: -1, ZeroBefore: map[int]int{}}
+	if n > 1<<16 {
+		// fragmentation is drawn for the first 64 KB only (the rest is
+		// delivered as asked, or under the per-call cap): a plan must not cost
+		// more choices than the document has kilobytes
+		n = 1 << 16
+	}
 	mode := t.Intn("rd-mode", 7)
 	p.EOFWithData = t.Bool("rd-eofdata")
 	p.Scribble = t.Bool("rd-scribble")
